@@ -30,11 +30,11 @@ for d in sorted(os.listdir(os.path.join(ROOT, "seeded"))):
 with open(os.path.join(ROOT, "seeded", "README.md"), "w") as f:
     f.write("# Seeded changes\n\nEach directory holds `patch.diff` (never committed to /repo), the sub-agent's demonstration (`demo_test.go.txt`) and `meta.json`\n"
             "(the agent's description, my confirmation in a scratch worktree, and what `./check run <property>` reported with the patch applied).\n"
-            "`-A/-B` first round, `-C/-D/-E` second round (less obvious changes), `-R` behaviour-preserving refactors that must stay silent.\n\n")
+            "`-A/-B` first round, `-C/-D/-E` second round (less obvious changes), `-F/-G/-H` third round (interactions, reuse, error paths, domain ends), `-R`/`-S` behaviour-preserving refactors that must stay silent.\n\n")
     f.write("| id | property | change | quick check | reported as |\n|---|---|---|---|---|\n")
     for r in rows:
         f.write("| %s | %s | %s | %s | %s |\n" % r)
-    n = len([r for r in rows if not r[0].endswith("-R")])
+    n = len([r for r in rows if not (r[0].endswith("-R") or r[0].endswith("-S"))])
     c = len([r for r in rows if r[3].startswith("caught")])
     s = len([r for r in rows if r[3].startswith("silent")])
     f.write("\n%d breaking changes, %d caught by the quick check of their property; %d refactors, %d silent.\n" % (n, c, len(rows) - n, s))
